@@ -104,13 +104,15 @@ CHECKS = {
     'C15': dict(
         text='Theorems over the model of check_binary_file (reported offset = first differing byte, lengths exact, '
              'for all byte strings) and of add_failures (a pass writes and names nothing; every named file is given '
-             'or written; the post-processed pair exists when exclusions were in force). The reconstruction itself is '
-             'part of the check_strings model and is compared byte-for-byte with the files the real assertions write; '
-             'an oracle checks that the pair differs exactly on the unexcused pairs.',
-        note='partial: that the reconstruction differs exactly on the unexcused lines is checked by oracle and '
-             'correspondence on generated cases (same-number-of-lines path), not yet by a theorem; file-system '
-             'behaviour is observed (tmp dir listing, watched data dir), not modelled.',
-        technique='Coq proof (binary_offset_exact, artefact-set theorems) + extracted-model correspondence on '
+             'or written; the post-processed pair exists when exclusions were in force), and of the reconstruction: for every '
+             'option set, pattern oracle and texts with equally many kept lines, the two post-processed texts have the same '
+             'number of lines and differ, in order, exactly at the unexcused differences '
+             '(C15_postprocessed_pair_differs_exactly; for any masks and ignore lists: C15_reconstruct_differs_exactly). The '
+             'reconstruction model is compared byte-for-byte with the files the real assertions write; an oracle checks the '
+             'same statement on the files.',
+        note='partial: the different-number-of-lines path of the reconstruction is covered by correspondence and oracle only; '
+             'file-system behaviour is observed (tmp dir listing, watched data dir), not modelled.',
+        technique='Coq proof (binary_offset_exact, artefact-set theorems, post-processed pair differs exactly at the unexcused differences) + extracted-model correspondence on '
                   'written files + property oracle',
         design='7 C15'),
     'C04': dict(
